@@ -35,6 +35,8 @@ type concIn struct {
 	IntervalNs int64    `json:"interval_ns"`
 	WhiteList  string   `json:"white_list"`
 	Addrs      []string `json:"addrs"`
+	// LogFile: a reqlimitlog is configured (written inside Inc at every interval end)
+	LogFile bool `json:"log_file,omitempty"`
 }
 
 type concFail struct {
@@ -99,7 +101,17 @@ func runConcAPI(in concIn) (fails []concFail) {
 	}
 	iv := time.Duration(in.IntervalNs)
 	t0 := time.Unix(1_700_000_000, 123_456_789)
-	il, err := app.NewIPRequestLimiter(int(in.Max), iv, t0, in.WhiteList, "")
+	logFile := ""
+	if in.LogFile {
+		dir, err := os.MkdirTemp("", "c20conclog")
+		if err != nil {
+			fail("setup", err.Error())
+			return
+		}
+		defer os.RemoveAll(dir)
+		logFile = filepath.Join(dir, "reqlimit.json")
+	}
+	il, err := app.NewIPRequestLimiter(int(in.Max), iv, t0, in.WhiteList, logFile)
 	if err != nil {
 		fail("constructor", err.Error())
 		return
@@ -428,7 +440,10 @@ func concScenarios(rng *rand.Rand, thorough bool) []concIn {
 	return []concIn{
 		{Mode: "barrier", Seed: rng.Int63n(1 << 30), Goroutines: 16, Phases: 4, PerPhase: per, Max: 40, IntervalNs: 1_000_000_007, WhiteList: "10.0.0.0/8", Addrs: addrs},
 		{Mode: "barrier", Seed: rng.Int63n(1 << 30), Goroutines: 16, Phases: 3, PerPhase: per, Max: 3, IntervalNs: 5, WhiteList: "", Addrs: addrs[:2]},
-		{Mode: "mixed", Seed: rng.Int63n(1 << 30), Goroutines: 16, Phases: 1, PerPhase: per, Max: 25, IntervalNs: 1_000_000_000, WhiteList: "2001:db8::/32", Addrs: addrs},
+		// a reqlimitlog configured: all goroutines arrive at the roll-over of the interval at once
+		{Mode: "barrier", Seed: rng.Int63n(1 << 30), Goroutines: 24, Phases: 8, PerPhase: per / 3, Max: 5, IntervalNs: 1_000_000_007, WhiteList: "", Addrs: addrs[:1], LogFile: true},
+		{Mode: "barrier", Seed: rng.Int63n(1 << 30), Goroutines: 16, Phases: 6, PerPhase: per / 3, Max: 40, IntervalNs: 60_000_000_000, WhiteList: "10.0.0.0/8", Addrs: addrs, LogFile: true},
+		{Mode: "mixed", Seed: rng.Int63n(1 << 30), Goroutines: 16, Phases: 1, PerPhase: per, Max: 25, IntervalNs: 1_000_000_000, WhiteList: "2001:db8::/32", Addrs: addrs, LogFile: true},
 		{Mode: "storm", Seed: rng.Int63n(1 << 30), Goroutines: 16, Phases: 1, PerPhase: per, Max: 5, IntervalNs: -10_000_000_000, WhiteList: "", Addrs: addrs[:2]},
 		{Mode: "http", Seed: rng.Int63n(1 << 30), Goroutines: 16, Phases: 1, PerPhase: per / 3, Max: 30, WhiteList: "10.0.0.0/8", Addrs: addrs},
 	}
